@@ -15,6 +15,10 @@ class SimDeadlock(BaseException):
     pass
 
 
+class UserSourceError(Exception):
+    """raised by a (simulated) user input source in the middle of a run"""
+
+
 class SimAbort(BaseException):
     """scheduler step budget exceeded (livelock)"""
 
@@ -345,7 +349,7 @@ class Sim:
         return ready + [q for q in qs if all(q is not r for r in ready)]
 
     # ---- one Pool.run
-    def run(self, inputs, extra=0, return_results=True, source='iter', use_enqueue_fn=None):
+    def run(self, inputs, extra=0, return_results=True, source='iter', use_enqueue_fn=None, fail_after=None):
         self.handed, self.failed_handing, self.answered, self.refused, self.poisoned = {}, {}, {}, {}, {}
         self.finished_cb, self.died_cb = [], []
         for w in self.workers:
@@ -353,7 +357,16 @@ class Sim:
         srcs = []
         if source == 'callable':
             srcs.append(lambda worker: worker.userid)
-        srcs.append(iter(list(inputs)))
+        if fail_after is None:
+            srcs.append(iter(list(inputs)))
+        else:
+            def failing(items=list(inputs), k=fail_after):
+                for i_, x_ in enumerate(items):
+                    if i_ == k:
+                        raise UserSourceError('input source failed')
+                    yield x_
+                raise UserSourceError('input source failed')
+            srcs.append(failing())
 
         def cb(worker, what, *a):
             if what == 'finished':
@@ -385,6 +398,8 @@ class Sim:
             res = {'kind': 'return', 'value': r}
         except PoolError as e:
             res = {'kind': 'poolerror', 'partial': e.partial_results}
+        except UserSourceError:
+            res = {'kind': 'source_raised'}
         except SimDeadlock:
             res = {'kind': 'deadlock'}
         except SimAbort:
